@@ -188,4 +188,13 @@ U(name="U.dep.stdlib_time", harness="harness/dep_stdlib_time.c", mode="P", funct
 U(name="L.cmp.order", harness="harness/lem_cmp_order.c", mode="P", unwind=20, chars=("signed", "unsigned"), props=["C07", "C08", "C19"],
   note="lemma over the comparer contract: stripped strings of at most 16 letters, all byte values")
 
+# the same contracts with the library's assert()s compiled out (-DNDEBUG, the Release configuration): code that only runs
+# inside an assert() -- a wipe, a dependency call, a check -- disappears there
+import copy as _copy
+for _n in ("U.api.free", "U.api.create", "U.api.load", "U.api.crypt", "U.api.decode", "U.api.decode_explicit", "U.lang.phrase_decode", "U.api.keygen", "U.api.encode"):
+    _u = _copy.copy([u for u in UNITS if u.name == _n][0])
+    _u.name = _n + "@ndebug"; _u.asserts_on = False; _u.props = ["C16", "C14"]; _u.canary = False
+    UNITS.append(_u)
+NDEBUG_UNITS = [u.name for u in UNITS if u.name.endswith("@ndebug")]
+
 BY_NAME = {u.name: u for u in UNITS}
